@@ -105,6 +105,21 @@ class Partial:
 
 _PARTIAL = Opaque("functools.partial")
 
+
+class _PureModule:
+    """A stdlib module of which only whitelisted pure functions may be used."""
+
+    def __init__(self, name, funcs):
+        self.name, self.funcs = name, funcs
+
+    def __repr__(self):
+        return "<pure module %s>" % self.name
+
+
+import codecs as _codecs_mod
+_CODECS = _PureModule("codecs", {"getdecoder": _codecs_mod.getdecoder, "getencoder": _codecs_mod.getencoder,
+                                 "lookup": _codecs_mod.lookup})
+
 SAFE_BUILTINS = {
     "dict": dict, "zip": zip, "range": range, "chr": chr, "ord": ord, "len": len, "max": max, "min": min,
     "set": set, "list": list, "tuple": tuple, "sorted": sorted, "str": str, "int": int, "bytes": bytes,
@@ -115,16 +130,14 @@ SAFE_BUILTINS = {
     "KeyError": KeyError, "IndexError": IndexError, "AttributeError": AttributeError,
     "NotImplementedError": NotImplementedError, "UnicodeDecodeError": UnicodeDecodeError,
 }
+def _public(t):
+    return {n for n in dir(t) if not n.startswith("_")}
+
+
+# every public method of the immutable builtin types is pure; containers are copied on write by the evaluator
 SAFE_METHODS = {
-    str: {"encode", "lower", "upper", "startswith", "endswith", "format", "join", "split", "strip", "lstrip",
-          "rstrip", "isdigit", "replace", "title", "capitalize"},
-    bytes: {"startswith", "endswith", "decode", "join", "lower", "upper"},
-    dict: {"keys", "values", "items", "get", "update", "copy", "setdefault", "pop", "popitem", "clear", "fromkeys"},
-    set: {"add", "update", "union", "copy", "discard", "remove", "clear", "intersection", "difference", "issubset",
-          "issuperset", "isdisjoint"},
-    frozenset: {"union", "intersection", "difference", "issubset", "issuperset", "isdisjoint"},
-    list: {"append", "extend", "copy", "index", "count", "pop", "insert", "remove", "clear", "sort", "reverse"},
-    tuple: {"index", "count"},
+    str: _public(str), bytes: _public(bytes), dict: _public(dict), set: _public(set), frozenset: _public(frozenset),
+    list: _public(list), tuple: _public(tuple), int: {"bit_length", "to_bytes"}, range: {"index", "count"},
 }
 MUTATORS = {"update", "setdefault", "pop", "popitem", "clear", "add", "discard", "remove", "append", "extend", "insert",
             "sort", "reverse", "__setitem__", "__delitem__"}
@@ -224,7 +237,7 @@ class Folder:
             elif isinstance(st, ast.Import):
                 for a in st.names:
                     nm = a.asname or a.name.split(".")[0]
-                    env[nm] = itertools if a.name == "itertools" else Opaque("module %s" % a.name)
+                    env[nm] = itertools if a.name == "itertools" else _CODECS if a.name == "codecs" else Opaque("module %s" % a.name)
             elif isinstance(st, (ast.Assign, ast.AnnAssign)):
                 if getattr(st, "value", None) is None:
                     return
@@ -318,6 +331,10 @@ class Folder:
     def v_attr(self, v, attr):
         if v is itertools and attr == "chain":
             return itertools.chain
+        if isinstance(v, _PureModule):
+            if attr in v.funcs:
+                return v.funcs[attr]
+            raise Unknown("attribute %s of %r" % (attr, v))
         if isinstance(v, Record):
             if attr not in v.fields:
                 raise Unknown("attribute %s of %r" % (attr, v))
@@ -568,7 +585,7 @@ class Folder:
 
     @staticmethod
     def _plain(v):
-        if isinstance(v, (Opaque, Lam, Partial, ModRef, Record)) or v is TOP:
+        if isinstance(v, (Opaque, Lam, Partial, ModRef, Record, _PureModule)) or v is TOP:
             raise Unknown("opaque operand")
 
 
